@@ -13,7 +13,7 @@ import pulser  # noqa: E402
 from pulser import Pulse  # noqa: E402
 from pulser.sequence._schedule import _ChannelSchedule  # noqa: E402
 from pulser.waveforms import (BlackmanWaveform, ConstantWaveform, CustomWaveform,  # noqa: E402
-                              RampWaveform)
+                              InterpolatedWaveform, RampWaveform)
 
 from . import devices as D  # noqa: E402
 from .project import fall_times, pulse_facts, qv  # noqa: E402
@@ -105,7 +105,17 @@ class Config:
                 sps, cfs = [], []
                 if ch.supports_eom():
                     for (amp, don, opt) in self.setpoints:
-                        rec = {"amp": qv(amp), "don": qv(don), "doff": 0, "out": "ok"}
+                        rec = {"amp": qv(amp), "don": qv(don), "doff": 0, "out": "ok", "dref": []}
+                        # the documented choice, made here: the member(s) of the allowed set closest to the optimum
+                        try:
+                            with warnings.catch_warnings():
+                                warnings.simplefilter("ignore")
+                                opts = np.asarray(ch.eom_config.detuning_off_options(amp, don).as_array(detach=True),
+                                                  dtype=float).ravel()
+                            dist = np.abs(opts - float(opt))
+                            rec["dref"] = sorted({qv(o) for o, dd in zip(opts, dist) if dd <= dist.min() + 1e-9})
+                        except Exception:  # noqa: BLE001
+                            rec["dref"] = []
                         try:
                             with warnings.catch_warnings():
                                 warnings.simplefilter("ignore")
@@ -219,23 +229,24 @@ def core(depth=3):
     return Config("core", _core_devs(), pulses, calls, init, depth)
 
 
-def eom(depth=3, custom_buf=None, micro=False, cpjt=None):
+def eom(depth=3, custom_buf=None, micro=False, cpjt=None, chbw=8.0, ebw=40.0):
     """EOM mode: enable / modify / pulse / delay / disable interleavings next to a plain channel.
     micro=True: phases in 1e-6 rad with drift correction enabled (tolerance compare)."""
     devs = [{
         "nq": 2,
         "chs": [
-            {"kind": "ryd", "addr": "G", "clock": 4, "minDur": 16, "bw": 8.0, "cpjt": cpjt,
-             "eom": {"bw": 40.0, "buf": custom_buf, "controlled_beams": ("BLUE", "RED")}},
+            {"kind": "ryd", "addr": "G", "clock": 4, "minDur": 16, "bw": chbw, "cpjt": cpjt,
+             "eom": {"bw": ebw, "buf": custom_buf, "controlled_beams": ("BLUE", "RED")}},
             {"kind": "ryd", "addr": "G", "clock": 4, "minDur": 4},
         ],
     }]
     pulses = [Pulse.ConstantPulse(100, 1.0, 0.0, 0.0),
               Pulse.ConstantPulse(52, 2.0, -1.0, 0.5)]
-    setpoints = [(1.0, 0.0, 0.0), (2.0, -1.0, -10.0)]
+    # the third one asks for a POSITIVE off-detuning while options of both signs are equally far in magnitude
+    setpoints = [(1.0, 0.0, 0.0), (2.0, -1.0, -10.0), (1.0, 0.0, 1.0)]
     calls = [{"op": "declare", "nm": 1, "cid": 1, "it": 0}, {"op": "declare", "nm": 2, "cid": 2, "it": 0}]
     cpds = (False, True) if micro else (False,)
-    for sp in (1, 2):
+    for sp in (1, 2, 3):
         for cpd in cpds:
             calls.append({"op": "eom_on", "nm": 1, "sp": sp, "cpd": cpd})
             calls.append({"op": "eom_mod", "nm": 1, "sp": sp, "cpd": cpd})
@@ -254,6 +265,7 @@ def eom(depth=3, custom_buf=None, micro=False, cpjt=None):
     calls.append({"op": "add", "nm": 2, "p": 1, "proto": "min-delay"})
     calls.append({"op": "add", "nm": 2, "p": 2, "proto": "wait-for-all"})
     calls.append({"op": "align", "nms": [1, 2], "rest": True})
+    calls.append({"op": "measure", "basis": "ground-rydberg"})     # every EOM operation is refused afterwards
     c = Config("eom", devs, pulses, calls, [1, 2], depth, setpoints=setpoints, cf_max=80 if cpjt is None else 220,
                phase_unit=1e-6 if micro else 0.5, phase_mod=6283185 if micro else 0,
                ptol=50 if micro else 0)
@@ -275,7 +287,10 @@ def typestate(depth=3):
             {"nq": 2, "slm": True, "reusable": True, "chs": chs}]
     pulses = [Pulse.ConstantPulse(16, 1.0, 0.0, 0.0),
               Pulse.ConstantAmplitude(0, ConstantWaveform(16, -5.0), 0.0),
-              Pulse.ConstantAmplitude(0, ConstantWaveform(16, -18.0), 0.0)]
+              Pulse.ConstantAmplitude(0, ConstantWaveform(16, -18.0), 0.0),
+              # inside the limits of the half-weight map (-12.5 per atom and in total), outside those of the
+              # first map (-25 on the atom of weight 1): a re-used DMM must be judged by its own map
+              Pulse.ConstantAmplitude(0, ConstantWaveform(16, -25.0), 0.0)]
     setpoints = [(1.0, 0.0, 0.0), (20.0, 0.0, 0.0)]      # the second one is above the channel's max_amp
     P = "min-delay"
     calls = [
@@ -302,6 +317,9 @@ def typestate(depth=3):
         {"op": "detmap", "mp": [2, 3], "w2": [2, 1], "cid": 4},
         {"op": "detmap", "mp": [2, 2], "w2": [0, 2], "cid": 5},
         {"op": "detmap", "mp": [2, 2], "w2": [0, 2], "cid": 1},    # not a DMM
+        {"op": "detmap", "mp": [1, 1], "w2": [1, 0], "cid": 4},    # another map for the first DMM (reusable device)
+        {"op": "dmm_add", "nm": 110, "p": 4, "proto": "no-delay"},  # on the second configuration of that DMM
+        {"op": "dmm_add", "nm": 100, "p": 4, "proto": "no-delay"},
         {"op": "slm", "tg": 1, "cid": 4},
         {"op": "slm", "tg": 3, "cid": 5},
         {"op": "dmm_add", "nm": 100, "p": 2, "proto": "no-delay"},
@@ -437,12 +455,14 @@ def limits(depth=2, seqs=(36, 52, 136, 140, 156, -1), virtual=False):
         C(16, 0.0, 0.0, 0.0),                      # 13 zero amplitude (avg 0 is allowed)
         Pulse(RampWaveform(18, 0.0, 10.0), RampWaveform(18, -50.0, 50.0), 0.0),   # 14 ramps ending AT the limits, lengthened to 20
         Pulse(RampWaveform(18, 10.0, 0.0), ConstantWaveform(18, 0.0), 0.0),       # 15 falling ramp ending at 0, lengthened
+        Pulse(ConstantWaveform(16, 1.0), CustomWaveform([0.0] * 8 + [float("-inf")] + [0.0] * 7), 0.0),  # 16 -inf detuning sample
+        Pulse(CustomWaveform([1.0] * 8 + [float("inf")] + [1.0] * 7), ConstantWaveform(16, 0.0), 0.0),   # 17 +inf amplitude sample
     ]
     calls = [{"op": "declare", "nm": 1, "cid": 1, "it": 0}, {"op": "declare", "nm": 2, "cid": 2, "it": 0},
              {"op": "declare", "nm": 3, "cid": 3, "it": 1}]
-    for p in range(1, 16):
+    for p in range(1, 18):
         calls.append({"op": "add", "nm": 1, "p": p, "proto": "min-delay"})
-    for p in (1, 6, 8, 9, 11):
+    for p in (1, 6, 8, 9, 11, 16, 17):
         calls.append({"op": "add", "nm": 2, "p": p, "proto": "min-delay"})
         calls.append({"op": "add", "nm": 1, "p": p, "proto": "no-delay"})
     for p in (1, 8):
@@ -549,11 +569,13 @@ def retarget(depth=3, full=True):
                     {"kind": "ram", "addr": "L", "clock": clock, "minDur": mind, "bw": bw,
                      "minRet": mr, "fixRet": fr, "maxTg": 2},
                     {"kind": "ram", "addr": "G", "clock": 1, "minDur": 1}]})
-    pulses = [Pulse.ConstantPulse(16, 1.0, 0.0, 0.0), Pulse.ConstantPulse(250, 1.0, 0.0, 0.5)]
+    pulses = [Pulse.ConstantPulse(16, 1.0, 0.0, 0.0), Pulse.ConstantPulse(250, 1.0, 0.0, 0.5),
+              # no amplitude, but a detuning that has to ramp down like any other output
+              Pulse.ConstantPulse(16, 0.0, -20.0, 0.0)]
     calls = [{"op": "declare", "nm": 1, "cid": 1, "it": 1}, {"op": "declare", "nm": 2, "cid": 2, "it": 0}]
     for tg in (1, 2, 3, 7):
         calls.append({"op": "target", "nm": 1, "tg": tg})
-    for p in (1, 2):
+    for p in (1, 2, 3):
         calls.append({"op": "add", "nm": 1, "p": p, "proto": "min-delay"})
     calls.append({"op": "add", "nm": 2, "p": 1, "proto": "min-delay"})
     calls.append({"op": "delay", "nm": 1, "d": 16, "rest": False})
@@ -653,6 +675,8 @@ def render_ising(depth=3, dmm_first=False):
     calls.append({"op": "pshift", "phi": 1, "tg": 2, "basis": "ground-rydberg"})
     init = [1, 2, 3]
     if dmm_first:
+        # this variant also uses integer qubit ids that are not their own position (1, 2, 0)
+        devs[0]["intids"] = True
         # the detuning map is configured before the channels are declared (channel order matters
         # for the per-atom view)
         init = [k + 1 for k, c in enumerate(calls) if c["op"] == "detmap"] + init
@@ -670,14 +694,23 @@ def render_xy(depth=3, masked=False):
     ]}]
     pulses = [Pulse(RampWaveform(6, 0.5, 2.5), RampWaveform(6, -1.0, 1.0), 0.5),
               Pulse.ConstantPulse(4, 1.5, -2.0, 0.0),
-              Pulse.ConstantPulse(3, 0.0, 1.0, 0.0)]
+              Pulse.ConstantPulse(3, 0.0, 1.0, 0.0),
+              # interpolator with its own keyword (legacy serialisation must keep it; the abstract
+              # representation documents that it refuses it)
+              Pulse(InterpolatedWaveform(8, [0.5, 2.5, 1.0, 0.2], interpolator="interp1d", kind="quadratic"),
+                    ConstantWaveform(8, 0.0), 0.0)]
     calls = [{"op": "declare", "nm": 1, "cid": 1, "it": 0}, {"op": "declare", "nm": 2, "cid": 2, "it": 0}]
     P = "min-delay"
     for (nm, p, proto) in ((1, 1, P), (1, 2, "no-delay"), (2, 1, "no-delay"), (2, 2, P), (2, 3, "no-delay"),
-                           (1, 3, P)):
+                           (1, 3, P), (1, 4, P)):
         calls.append({"op": "add", "nm": nm, "p": p, "proto": proto})
     calls.append({"op": "delay", "nm": 1, "d": 3, "rest": False})
     calls.append({"op": "delay", "nm": 2, "d": 5, "rest": False})
+    if masked:
+        # a first pulse on the second channel that starts later but ends earlier than the first channel's
+        # (the mask lasts until the end of the pulse that STARTS first)
+        calls.append({"op": "delay", "nm": 2, "d": 1, "rest": False})
+        calls.append({"op": "add", "nm": 2, "p": 2, "proto": "no-delay"})
     calls.append({"op": "slm", "tg": 5, "cid": 3})
     calls.append({"op": "slm", "tg": 2, "cid": 3})
     calls.append({"op": "magfield", "zero": False})
@@ -699,7 +732,9 @@ def template(depth=3):
     devs = [{"nq": 3, "chs": [
         {"kind": "ryd", "addr": "G", "clock": 4, "minDur": 8, "bw": 80.0,
          "eom": {"bw": 40.0, "controlled_beams": ("BLUE", "RED")}},
-        {"kind": "ryd", "addr": "G", "clock": 2, "minDur": 4},
+        # a second channel with an EOM: the mode of one channel says nothing about the other
+        {"kind": "ryd", "addr": "G", "clock": 2, "minDur": 4, "bw": 160.0,
+         "eom": {"bw": 80.0, "controlled_beams": ("BLUE",)}},
         {"kind": "ram", "addr": "L", "clock": 4, "minDur": 4, "bw": 160.0, "minRet": 20, "fixRet": 8, "maxTg": 1},
         {"kind": "dmm", "clock": 4, "minDur": 4},
     ]}]
@@ -726,6 +761,7 @@ def template(depth=3):
         {"op": "eom_on", "nm": 1, "sp": 1, "cpd": False},
         {"op": "eom_add", "nm": 1, "dur": 16, "ph": 0, "pps": 0, "proto": P, "cpd": False},
         {"op": "eom_off", "nm": 1, "cpd": False},
+        {"op": "eom_on", "nm": 2, "sp": 1, "cpd": False},
         {"op": "detmap", "mp": [2, 3], "w2": [2, 1, 0], "cid": 4},
     ]
     par_real = {}
@@ -987,6 +1023,12 @@ def instances(name, tier):
                 for pc in with_prefixes(lambda: eom(3, custom_buf=buf), f"render_eom-b{buf or 0}", 3, _seed0()):
                     pc.render = True
                     out.append(pc)
+        # an EOM that is SLOWER than the channel's own modulation (legal): the EOM-modulated part of the output
+        # is then the longer one
+        c = eom(3, chbw=40.0, ebw=8.0)
+        c.name = "render_eom-slow-d3"
+        c.render = True
+        out.append(c)
         return out
     if name == "phases":
         a = phases(3)
@@ -1022,6 +1064,16 @@ def instances(name, tier):
             c = eom(3, custom_buf=buf, micro=True)
             c.name = f"eomdrift-b{buf or 0}-d3"
             out.append(c)
+            if buf is None:
+                # from inside an EOM block with a non-zero off-detuning, after one drift-corrected pulse:
+                # what a wait does to the phase of the next pulse (and so to the phase-jump buffer)
+                c = eom(3, custom_buf=buf, micro=True)
+                on = [k + 1 for k, x in enumerate(c.calls) if x["op"] == "eom_on" and x["sp"] == 2 and not x["cpd"]][0]
+                ad = [k + 1 for k, x in enumerate(c.calls) if x["op"] == "eom_add" and x["dur"] == 16 and x["cpd"]
+                      and x["pps"] == 0][0]
+                c.init_calls = list(c.init_calls) + [on, ad]
+                c.name = "eomdrift-b0-inblock-d3"
+                out.append(c)
             if not quick:
                 out += with_prefixes(lambda: eom(3, custom_buf=buf, micro=True), f"eomdrift-b{buf or 0}", 4,
                                      _seed0())
@@ -1075,6 +1127,9 @@ def by_tag(tag):
             c = render_ising(d, dmm_first="dmmfirst" in tag)
         elif tag.startswith("render_xy"):
             c = render_xy(d, masked="masked" in tag)
+        elif "slow" in tag:
+            c = eom(d, chbw=40.0, ebw=8.0)
+            c.render = True
         else:
             c = eom(d, custom_buf=240 if "b240" in tag else None)
             c.render = True
